@@ -22,6 +22,9 @@ H.append({"name":"H_rediff","tiers":Q,"scale":"b2","preemptions":-1,"bounds":"op
   "param_sets":[{"shape":s,"parts":3,"procs1":8,"procs2":c} for s in (0,1) for c in (1,2)]})
 H.append({"name":"H_diff","tiers":Q,"scale":"b2","preemptions":-1,"bounds":"WritePatch with 8 CPUs vs 1 CPU, canonical schedule",
   "param_sets":[{"n0":4,"n1":3,"slicing":0,"policy":0,"procs1":8,"procs2":1}]})
+scale+=[dict(r,set="w",value=("64" if r.get("match")=="128 * 1024" else r["value"])) for r in sc(2,5)]
+H.append({"name":"H_bsdiff","tiers":Q,"scale":"w","preemptions":1,"bounds":"bsdiff with a 64-byte scan block (matches beyond the 8-byte threshold): old 24, new 30..70 (1-2 scan blocks), partitions 1..3, <=1 preemption, 2 policies; and 8 vs 2 CPUs",
+  "param_sets":[{"n0":24,"n1":n,"parts":p,"policy":q} for n in (30,70) for p in (1,2,3) for q in (0,1)]+[{"n0":24,"n1":70,"parts":p,"policy":0,"procs1":8,"procs2":2} for p in (2,3)]})
 H.append({"name":"H_diff","tiers":T,"scale":"b2","preemptions":2,"bounds":"<=2 preemptions, sizes (4,3),(5,2); with and without short reads","max_seconds":1700,
   "param_sets":[{"n0":a,"n1":b,"slicing":s,"policy":p} for (a,b) in ((4,3),(5,2)) for s in (0,1) for p in (0,1)]})
 H.append({"name":"H_bsdiff","tiers":T,"scale":"b2","preemptions":2,"bounds":"old 2..8, new 5..17, partitions 1..4, <=2 preemptions","max_seconds":1700,
